@@ -3,6 +3,7 @@ import OutrankModel.Model.MI
 # Helper lemmas for C04 (stratified sub-sampling).  Core Lean only.
 -/
 namespace MI
+namespace Smp
 
 /-! ### `dedupAdj` and `vals` -/
 
@@ -256,4 +257,5 @@ theorem sampleSpec_congr (Y Y' X : List Nat) (rnum rden : Nat)
 theorem vals_example : vals [0, 0, 0, 1] = [0, 1] := by
   simp [vals, dedupAdj, List.mergeSort, List.MergeSort.Internal.splitInTwo]
 
+end Smp
 end MI
